@@ -583,14 +583,15 @@ void register_c07(std::vector<Profile>& v)
   p.judge = judge_c07;
   p.judge_parent = judge_c07_parent;
   p.rule =
-    "one case = one seeded program: 1-3 logging threads + 0-2 threads that logged and exited, real FileSinks, System or TSC clock, and one "
+    "one case = one seeded program: 1-3 logging threads + 0-2 threads that logged and exited, real FileSinks / RotatingFileSinks (the destination is "
+    "the set of files), System or TSC clock, in one run of three a logger the main thread removes before the end, and one "
     "terminal event placed after 0-8 statements of a victim thread with the backend busy, stalled or idle: none (Backend::stop()/start() "
     "cycles incl. statements logged while stopped), exit(n), or SIGSEGV/SIGABRT/SIGFPE/SIGILL/SIGINT/SIGTERM with quill's built-in handler, "
     "raised or really faulted (null store, abort(), integer division, ud2); the child really exits / dies and the parent judges wait status "
     "and file contents; distinct = distinct event hash up to the terminal event; non-trivial = a terminal event judged by the parent or >=1 "
     "stop checked";
   p.real_components = {"BackendWorker::_exit drain", "BackendManager start/stop + atexit handler", "detail::on_signal (real signal delivery in the child)",
-                       "FileSink stdio path", "frontend, queues"};
+                       "FileSink stdio path", "RotatingFileSink (size and minutely rotation)", "logger removal / clean-up", "frontend, queues"};
   p.stub_components = {"clock (virtual)", "alarm() (recorded, never armed: the 20 s watchdog is real time)", "scheduling (simulator); after exit() began the "
                        "other user threads finish their current call and park"};
   p.assumptions = {"plain flavour only (ASan installs its own SIGSEGV handling)", "return from main is exit(n) by the C++ standard and is exercised as exit(n)"};
